@@ -19,7 +19,10 @@ Values == {"0", "1", "2", "3", "4", "7", "8", "t-1", "t+1", "t+2", "2^16-1", "2^
            \* for length fields: the largest value whose region still ends inside its container, and just around it
            "limit-1", "limit", "limit+1", "limit+5", "limit+10"}
 \* structural operations on the chunk that contains the field
-StructOps == {"truncate-here", "delete-chunk", "duplicate-chunk", "swap-with-next", "zero-length", "drop-pad", "splice-foreign"}
+\* the "-resized" variants keep the file consistent: the size field of the enclosing ANMF chunk (for a sub-chunk of a
+\* frame) and the RIFF size follow the change, so the result is a well-sized container with an unexpected chunk sequence
+StructOps == {"truncate-here", "delete-chunk", "duplicate-chunk", "swap-with-next", "zero-length", "drop-pad", "splice-foreign",
+              "duplicate-chunk-resized", "delete-chunk-resized", "zero-length-resized"}
 
 Faults == [slot : 0..(NFIELDS - 1), kind : {"set"}, arg : Values] \cup [slot : 0..(NFIELDS - 1), kind : {"struct"}, arg : StructOps]
 
